@@ -79,3 +79,83 @@ def local_random(rnd, n):
         if rnd.random() < 0.5: s = mutate(rnd, s)
         out.append('L %s -' % hx(s))
     return out
+
+# ------------------------------------------------------------------ domains
+DOM_ALPHA = [b'a', b'1', b'-', b'.', b'_', b'!', b'\xc3', b'A']
+
+def dom_class(n, alpha=DOM_ALPHA):
+    return [s for s in all_strings(alpha, n)]
+
+def dom_boundary(chars=(b'x', b'7', b'-')):
+    out = []
+    for n in range(0, 71):
+        labs = set()
+        for ch in chars:
+            labs.add(b'a' + ch * (n - 2) + b'b' if n >= 2 else b'a' * n)   # ch in the interior
+            labs.add(ch * n)                                               # ch everywhere
+            labs.add(b'a' * (n - 1) + ch if n >= 1 else b'')               # ch last
+            labs.add(ch + b'a' * (n - 1) if n >= 1 else b'')               # ch first
+            if n >= 4:
+                labs.add(b'a' * (n - 3) + ch * 3)                          # ch in the last three places
+        for lab in sorted(labs):
+            for pre in (b'', b'a.', b'a.b.'):
+                for suf in (b'', b'.', b'.c', b'.c.', b'.c.d'):
+                    out.append(pre + lab + suf)
+    lab50 = b'a' * 49
+    for n in range(236, 262):
+        base = (lab50 + b'.') * 6
+        for filler in (b'b', b'1'):
+            d = (base + filler * 60 + b'.' + filler * 60)[:n]
+            for suf in (b'', b'.', b'..'):
+                out.append(d + suf)
+    # numeric / mixed
+    for d in (b'1', b'1.2', b'1.2.3.4', b'1a', b'1.a', b'1-2', b'0.', b'123.456.', b'1.2.3.4.5x'):
+        out.append(d)
+    return out
+
+def dom_sweep():
+    out = []
+    for pre in (b'', b'a', b'a.', b'a-', b'a.b', b'1', b'1.'):
+        for post in (b'', b'b', b'.b', b'-b', b'.', b'.b.'):
+            for c in range(1, 256):
+                out.append(pre + bytes([c]) + post)
+    return out
+
+def dom_lines(doms, rests=(b'',)):
+    return ['D %s %s' % (hx(d), hx(r)) for d in doms for r in rests]
+
+def rand_label(rnd, maxlen=12):
+    n = rnd.randint(1, maxlen)
+    s = bytes(rnd.choice(b'abcxyz0123456789-ABC') for _ in range(n))
+    return s
+
+def dom_random(rnd, n):
+    out = []
+    for _ in range(n):
+        k = rnd.randint(1, 5)
+        d = b'.'.join(rand_label(rnd, rnd.choice([3, 8, 20, 63, 64])) for _ in range(k))
+        if rnd.random() < 0.2: d += b'.'
+        for _ in range(rnd.choice([0, 0, 1, 2])):
+            d = mutate(rnd, d)
+        out.append(d)
+    return out
+
+def e_lines(addrs, oracle, modes=(0, 1, 2, 3), tlds=(0, 1)):
+    """E lines for the given addresses; oracle: dict domain -> (rc, ascii)."""
+    out = []
+    for a in addrs:
+        i = a.rfind(b'@')
+        d = a[i + 1:] if i >= 0 else b''
+        rc, asc = oracle.get(d, (0, b''))
+        for m in modes:
+            for t in tlds:
+                out.append('E %d %d %s %d %s 0' % (m, t, hx(a), rc, hx(asc)))
+    return out
+
+def u_lines(doms, oracle, tlds=(0, 1)):
+    out = []
+    for d in doms:
+        rc, asc = oracle.get(d, (0, b''))
+        for t in tlds:
+            out.append('U %d %s %d %s 0' % (t, hx(d), rc, hx(asc)))
+    return out
